@@ -36,44 +36,20 @@ def check_tensor(v, axes, entry, what):
             raise Violation(what + f" entry {idx}", str(v.data[idx]), str(e))
 
 
-def run(chk):
-    G = GenEnv(chk.repo)
-    chk.files = G.w.files
-    chk.rule("C14.R1", "make_cartesian_product: rows = Prod(rows(b1), rows(b2)) (b1 major), columns [b1 | b2]", floor=2)
-    chk.rule("C14.R2", "get_batch: product / pairing structure of the interior and border space-time batches, time in column 0", floor=8)
-    mcp = G.fn("make_cartesian_product")
+def border(d, rows):
+    nf = 2 * d
+    if d == 1:
+        return AT((1, 1, 2), np.array([[[X(0, "facet0"), X(0, "facet1")]]], dtype=object))
+    dat = np.empty((d, nf), dtype=object)
+    for c in range(d):
+        for f in range(nf):
+            dat[c, f] = X(c, rows, f"facet{f}")
+    return AT((rows, d, nf), dat)
 
-    def border(d, rows):
-        nf = 2 * d
-        if d == 1:
-            return AT((1, 1, 2), np.array([[[X(0, "facet0"), X(0, "facet1")]]], dtype=object))
-        dat = np.empty((d, nf), dtype=object)
-        for c in range(d):
-            for f in range(nf):
-                dat[c, f] = X(c, rows, f"facet{f}")
-        return AT((rows, d, nf), dat)
 
-    def go_2d(d):
-        def go():
-            t = AT(("Bt", 1), np.array([T("Bt")], dtype=object))
-            x = batch_x(d, "Bx")
-            r = mcp(t, x)
-            check_tensor(r, ("Prod(Bt,Bx)", 1 + d), lambda i: T("Bt") if i[0] == 0 else X(i[0] - 1, "Bx"), "product")
-            return "rows Prod(Bt,Bx), columns [t | x]"
-        return go
-    for d in (1, 2, 3):
-        chk.run("C14.R1", f"{MOD}:make_cartesian_product", {"dim": d, "rank": 2}, go_2d(d), construct="make_cartesian_product")
-
-    def go_3d():
-        nf, d = 4, 2
-        t = AT(("Bt", 1, nf), np.array([[T("Bt")] * nf], dtype=object))
-        dx = border(d, "Bb")
-        r = mcp(t, dx)
-        check_tensor(r, ("Prod(Bt,Bb)", 1 + d, nf),
-                     lambda i: T("Bt") if i[0] == 0 else X(i[0] - 1, "Bb", f"facet{i[1]}"), "border product")
-        return "rows Prod(Bt,Bb), columns [t | dx] for every facet"
-    chk.run("C14.R1", f"{MOD}:make_cartesian_product", {"dim": 2, "rank": 3}, go_3d, construct="make_cartesian_product (border)")
-
+def spacetime_batch_obligations(G):
+    """(configuration, thunk) pairs deciding the structure of CubicMeshPDENonStatio.get_batch's space-time batches"""
+    out = []
     for cart in (True, False):
         for d in (1, 2):
             for with_border in (True, False):
@@ -108,4 +84,36 @@ def run(chk):
                     check_tensor(tdx, (brow, 1 + d, nf),
                                  lambda i: T(rt) if i[0] == 0 else X(i[0] - 1, rb, f"facet{i[1]}"), "times_x_border_batch")
                     return f"interior rows {rows}; border rows {brow}, same time column for all facets"
-                chk.run("C14.R2", f"{MOD}:CubicMeshPDENonStatio.get_batch", cfg, go, construct=f"get_batch[{'cartesian' if cart else 'paired'},{d}D]")
+                out.append((cfg, go, f"get_batch[{'cartesian' if cart else 'paired'},{d}D]"))
+    return out
+
+
+def run(chk):
+    G = GenEnv(chk.repo)
+    chk.files = G.w.files
+    chk.rule("C14.R1", "make_cartesian_product: rows = Prod(rows(b1), rows(b2)) (b1 major), columns [b1 | b2]", floor=2)
+    chk.rule("C14.R2", "get_batch: product / pairing structure of the interior and border space-time batches, time in column 0", floor=8)
+    mcp = G.fn("make_cartesian_product")
+
+    def go_2d(d):
+        def go():
+            t = AT(("Bt", 1), np.array([T("Bt")], dtype=object))
+            x = batch_x(d, "Bx")
+            r = mcp(t, x)
+            check_tensor(r, ("Prod(Bt,Bx)", 1 + d), lambda i: T("Bt") if i[0] == 0 else X(i[0] - 1, "Bx"), "product")
+            return "rows Prod(Bt,Bx), columns [t | x]"
+        return go
+    for d in (1, 2, 3):
+        chk.run("C14.R1", f"{MOD}:make_cartesian_product", {"dim": d, "rank": 2}, go_2d(d), construct="make_cartesian_product")
+
+    def go_3d():
+        nf, d = 4, 2
+        t = AT(("Bt", 1, nf), np.array([[T("Bt")] * nf], dtype=object))
+        dx = border(d, "Bb")
+        r = mcp(t, dx)
+        check_tensor(r, ("Prod(Bt,Bb)", 1 + d, nf),
+                     lambda i: T("Bt") if i[0] == 0 else X(i[0] - 1, "Bb", f"facet{i[1]}"), "border product")
+        return "rows Prod(Bt,Bb), columns [t | dx] for every facet"
+    chk.run("C14.R1", f"{MOD}:make_cartesian_product", {"dim": 2, "rank": 3}, go_3d, construct="make_cartesian_product (border)")
+    for cfg, go, construct in spacetime_batch_obligations(G):
+        chk.run("C14.R2", f"{MOD}:CubicMeshPDENonStatio.get_batch", cfg, go, construct=construct)
